@@ -5,6 +5,7 @@ import layouts
 import compfacts
 import keepalive
 import serverfacts
+import tlsfacts
 
 GENERATORS = [
     ('Backoff.v', backoff.generate),
@@ -14,6 +15,7 @@ GENERATORS = [
     ('CompFacts.v', compfacts.generate),
     ('KeepAliveFacts.v', keepalive.generate),
     ('ServerFacts.v', serverfacts.generate),
+    ('TlsFacts.v', tlsfacts.generate),
 ]
 
 if __name__ == '__main__':
